@@ -6,7 +6,10 @@ pub mod mq_spsc;
 pub mod ch_util;
 pub mod ch_mpsc;
 pub mod mq_spmc;
+pub mod ch_mpmc;
+pub mod ch_spsc;
 pub mod mutex;
+pub mod blocker_thr;
 pub mod mq_tl;
 pub mod rwlock;
 pub mod sem;
@@ -16,6 +19,7 @@ pub mod barrier;
 pub mod waitgroup;
 pub mod time_dur;
 pub mod timeout_list;
+pub mod timer_thread;
 
 /// a det-mode scenario ready to run
 pub struct Built {
@@ -34,6 +38,10 @@ pub struct Built {
 pub fn build_det(family: &str, rng: &mut Rng, tier: u32) -> Option<Built> {
     match family {
         "mutex" => Some(mutex::build(rng, tier)),
+        "blocker_thr" => Some(blocker_thr::build(rng, tier)),
+        "ch_mpmc_f4" => Some(ch_mpmc::build_f4(rng, tier)),
+        "ch_spsc" => Some(ch_spsc::build(rng, tier)),
+        "ch_mpmc" => Some(ch_mpmc::build(rng, tier)),
         "mq_tl" => Some(mq_tl::build(rng, tier)),
         "rwlock" => Some(rwlock::build(rng, tier)),
         "rwlock_reg" => Some(rwlock::build_reg(rng, tier)),
@@ -48,12 +56,13 @@ pub fn build_det(family: &str, rng: &mut Rng, tier: u32) -> Option<Built> {
         "waitgroup" => Some(waitgroup::build(rng, tier)),
         "time_dur" => Some(time_dur::build(rng, tier)),
         "timeout_list" => Some(timeout_list::build(rng, tier)),
+        "timer_thread" => Some(timer_thread::build(rng, tier)),
         _ => None,
     }
 }
 
 pub fn det_families() -> Vec<&'static str> {
-    vec!["ch_mpsc", "mutex", "mq_tl", "rwlock", "rwlock_reg", "sem", "syncflag", "mq_mpsc", "mq_spsc", "mq_spmc", "condvar", "barrier", "waitgroup", "time_dur", "timeout_list"]
+    vec!["blocker_thr", "ch_spsc", "ch_mpmc", "ch_mpsc", "mutex", "mq_tl", "rwlock", "rwlock_reg", "sem", "syncflag", "mq_mpsc", "mq_spsc", "mq_spmc", "condvar", "barrier", "waitgroup", "time_dur", "timeout_list"]
 }
 
 pub mod live_park;
@@ -76,6 +85,8 @@ pub struct LiveBuilt {
 pub fn build_live(family: &str, rng: &mut Rng, tier: u32) -> Option<LiveBuilt> {
     match family {
         "park" => Some(live_park::build(rng, tier)),
+        "blocker" => Some(live_park::build_blocker(rng, tier)),
+        "park_sleepers" => Some(live_park::build_sleepers(rng, tier)),
         "join" => Some(live_join::build(rng, tier)),
         "rwlock_live" => Some(live_rwlock::build(rng, tier)),
         "life" => Some(live_life::build(rng, tier)),
